@@ -345,6 +345,11 @@ func TestC10PeerPath(t *testing.T) {
 			data = z
 		case "gated_slot":
 			duty.Slot = (1000/cl.bn.SPE + 3 + uint64(rapid.IntRange(0, 50).Draw(rt, "beyond"))) * cl.bn.SPE
+			if rapid.IntRange(0, 2).Draw(rt, "hugeSlot") == 0 {
+				// far beyond the window, including values whose signed interpretation is negative
+				duty.Slot = rapid.SampledFrom([]uint64{1 << 63, 1<<63 + 1000, 1<<63 + 1<<62, ^uint64(0), ^uint64(0) - 31, 1 << 62, 1 << 32, 1<<63 - 1}).Draw(rt, "hugeSlotValue")
+				detail = fmt.Sprintf("slot=%d", duty.Slot)
+			}
 		case "invalid_duty_type":
 			duty.Type = core.DutyType(rapid.SampledFrom([]int{0, 99}).Draw(rt, "badType"))
 		case "bare_signature_duty":
